@@ -41,7 +41,11 @@ def _candidate(pdef, kind):
             return "not_a_value", (("error",) if allowed else ("ok", "not_a_value"))
         if kind == "wrong_type":
             return 5, ("error",)
-        return "gar bage", (("error",) if allowed else ("ok", "gar bage"))
+        if allowed:
+            # a near miss: an allowed value in the other letter case
+            near = str(allowed[0]).swapcase()
+            return (near, ("error",)) if near not in allowed else ("gar bage", ("error",))
+        return "gar bage", ("ok", "gar bage")
     if t in ("int", "float") and kind in ("zero", "zero_as_str"):
         z = 0 if t == "int" else 0.0
         return (z if kind == "zero" else "0"), ("ok", z)
